@@ -633,3 +633,125 @@ Print Assumptions C06_src_blake3_hasher_init_derive_key_raw.
 Print Assumptions C06_src_blake3_hasher_init_derive_key.
 Print Assumptions C06_src_blake3_hasher_reset.
 Print Assumptions C06_src_finalize_seek_length.
+
+(* ---- the loop-carrying core of c/blake3.c, translated (gen/GenCHasherLoops.v) ----------------------------------
+   chunk_state_update, hasher_merge_cv_stack, hasher_push_cv, blake3_hasher_finalize_seek: every `while` of the source
+   is a Fixpoint on explicit fuel whose condition and body statements are the source's, in order; cv_stack is the flat
+   uint8_t[1760] of c/blake3.h with the index arithmetic of the source and a bounds assert at every access.  Each equals
+   the hand-written model for all arguments and all results (Ok / every Panic code / OutOfFuel): the loops for every
+   fuel, the enclosing functions at the fuel the model hard-codes (or for every fuel that is enough, where the model
+   computes it / has none).  Proofs/GenCHasherLoopsP.v lists the places where source and model are shaped differently. *)
+From V Require Import gen.GenCHasherLoops Proofs.GenCHasherLoopsP.
+From V Require Proofs.GenLibSmallP.
+
+(* how the flat cv_stack is read into the model's slots, the array lengths assumed, the stand-in for output_root_bytes *)
+Theorem C06_src_flat_repr_def :
+  (forall l, slots_of_flat l = chunks32 (N.to_nat c_cv_stack_slots) l) /\
+  (forall n l, chunks32 (S n) l = firstn 32 l :: chunks32 n (skipn 32 l)) /\ (forall l, chunks32 0 l = []) /\
+  (forall sl, length sl = N.to_nat c_cv_stack_slots -> Forall (fun s => length s = 32%nat) sl ->
+     slots_of_flat (concat sl) = sl) /\
+  (forall l, length l = N.to_nat c_cv_stack_bytes -> concat (slots_of_flat l) = l) /\
+  (forall h : src_blake3_hasher (list N),
+     hasher_of_flat h = mkCH (blake3_hasher_key h) (cs_of_src (blake3_hasher_chunk h))
+                             (blake3_hasher_cv_stack_len h) (slots_of_flat (blake3_hasher_cv_stack h))) /\
+  (forall h : src_blake3_hasher (list N),
+     flat_shape h <-> hasher_shape h /\ length (blake3_hasher_cv_stack h) = N.to_nat c_cv_stack_bytes) /\
+  (forall p, compress_len8 p <-> forall cv block bl ctr fl, length cv = 8%nat ->
+     length (p_compress_in_place p cv block bl ctr fl) = 8%nat) /\
+  (forall p, PlatformOK p -> compress_len8 p) /\
+  (forall p self seek out out_len,
+     m_output_root_bytes p self seek out out_len =
+     match c_output_root_bytes p (output_of_src self) seek out_len with
+     | Ok bs => Ok (arr_store out 0 bs) | Panic c => Panic c | OutOfFuel => OutOfFuel end) /\
+  (forall (A : Type) c (r : res A),
+     at_site c r = match r with Ok a => Ok a | Panic _ => Panic c | OutOfFuel => OutOfFuel end).
+Proof.
+  split; [reflexivity|]. split; [reflexivity|]. split; [reflexivity|].
+  split; [exact slots_of_flat_concat|]. split; [exact concat_slots_of_flat|]. split; [reflexivity|].
+  split; [intros h; unfold flat_shape; tauto|]. split; [intros p; unfold compress_len8; tauto|].
+  split; [intros p OK cv block bl ctr fl H; apply Proofs.GenLibSmallP.p_cip_length; assumption|]. split; reflexivity.
+Qed.
+
+(* `while (input_len > BLAKE3_BLOCK_LEN) { .. }`: every fuel *)
+Theorem C06_src_chunk_state_update_loop1 : forall p fuel self input,
+  res_map (fun r => (cs_of_src (fst (fst r)), snd (fst r)))
+          (src_chunk_state_update_loop1 (p_compress_in_place p) fuel self input (nlen input))
+  = c_cs_update_loop fuel p (cs_of_src self) input.
+Proof. exact src_chunk_state_update_loop1_eq. Qed.
+
+(* the input_len the translated loop hands on is the length of the input it hands on *)
+Theorem C06_src_chunk_state_update_loop1_len : forall p fuel self input s i l,
+  src_chunk_state_update_loop1 (p_compress_in_place p) fuel self input (nlen input) = Ok (s, i, l) -> l = nlen i.
+Proof. exact src_chunk_state_update_loop1_len. Qed.
+
+(* every fuel that is enough (64 * fuel covers the input); the model computes S (length input' / 64) from the input
+   left after the flush of the buffered block, which is one such value *)
+Theorem C06_src_chunk_state_update : forall p fuel self input, cs_shape self -> (length input <= 64 * fuel)%nat ->
+  res_map cs_of_src (src_chunk_state_update (p_compress_in_place p) fuel self input (nlen input))
+  = c_cs_update p (cs_of_src self) input.
+Proof. exact src_chunk_state_update_eq. Qed.
+
+Theorem C06_src_chunk_state_update_model_fuel : forall p self input, cs_shape self ->
+  res_map cs_of_src
+    (src_chunk_state_update (p_compress_in_place p) (S (Nat.div (length input) 64)) self input (nlen input))
+  = c_cs_update p (cs_of_src self) input.
+Proof. exact src_chunk_state_update_model_fuel. Qed.
+
+(* `while (self->cv_stack_len > post_merge_stack_len) { .. }`: every fuel *)
+Theorem C06_src_hasher_merge_cv_stack_loop1 : forall p, compress_len8 p ->
+  forall fuel (self : src_blake3_hasher (list N)) post, flat_shape self ->
+  res_map hasher_of_flat (src_hasher_merge_cv_stack_loop1 (p_compress_in_place p) fuel self post)
+  = c_merge_loop fuel p (hasher_of_flat self) post.
+Proof. exact src_hasher_merge_cv_stack_loop1_eq. Qed.
+
+Theorem C06_src_hasher_merge_cv_stack : forall p (self : src_blake3_hasher (list N)) total_len,
+  compress_len8 p -> flat_shape self ->
+  res_map hasher_of_flat (src_hasher_merge_cv_stack (p_compress_in_place p) c_merge_fuel self total_len)
+  = c_merge_cv_stack p (hasher_of_flat self) total_len.
+Proof. exact src_hasher_merge_cv_stack_eq. Qed.
+
+Theorem C06_src_hasher_merge_cv_stack_shape : forall p fuel (self h' : src_blake3_hasher (list N)) total_len,
+  compress_len8 p -> flat_shape self ->
+  src_hasher_merge_cv_stack (p_compress_in_place p) fuel self total_len = Ok h' -> flat_shape h'.
+Proof. exact src_hasher_merge_cv_stack_shape. Qed.
+
+Theorem C06_src_hasher_push_cv : forall p (self : src_blake3_hasher (list N)) new_cv chunk_counter,
+  compress_len8 p -> flat_shape self -> length new_cv = 32%nat ->
+  res_map hasher_of_flat (src_hasher_push_cv (p_compress_in_place p) c_merge_fuel self new_cv chunk_counter)
+  = c_push_cv p (hasher_of_flat self) new_cv chunk_counter.
+Proof. exact src_hasher_push_cv_eq. Qed.
+
+(* `while (cvs_remaining > 0) { .. }`: every fuel that covers cvs_remaining (the model recurses on cvs_remaining) *)
+Theorem C06_src_blake3_hasher_finalize_seek_loop1 : forall p, compress_len8 p ->
+  forall fuel (self : src_blake3_hasher (list N)) output r,
+  flat_shape self -> length (output_t_input_cv output) = 8%nat -> (N.to_nat r <= fuel)%nat ->
+  res_map (fun x => output_of_src (fst x))
+          (src_blake3_hasher_finalize_seek_loop1 (p_compress_in_place p) fuel self output r)
+  = c_finalize_loop (N.to_nat r) p (hasher_of_flat self) (output_of_src output).
+Proof. exact src_blake3_hasher_finalize_seek_loop1_eq. Qed.
+
+(* every fuel >= cv_stack_len; `out` after the call = the model's bytes stored at out[0 ..) *)
+Theorem C06_src_blake3_hasher_finalize_seek : forall p fuel (self : src_blake3_hasher (list N)) seek out out_len,
+  compress_len8 p -> flat_shape self -> (N.to_nat (blake3_hasher_cv_stack_len self) <= fuel)%nat ->
+  src_blake3_hasher_finalize_seek (m_output_root_bytes p) (p_compress_in_place p) fuel self seek out out_len
+  = res_map (fun bs => arr_store out 0 bs) (c_hasher_finalize_seek p (hasher_of_flat self) seek out_len).
+Proof. exact src_blake3_hasher_finalize_seek_eq. Qed.
+
+Theorem C06_src_blake3_hasher_finalize_seek_256 : forall p (self : src_blake3_hasher (list N)) seek out out_len,
+  compress_len8 p -> flat_shape self -> blake3_hasher_cv_stack_len self < 256 ->
+  src_blake3_hasher_finalize_seek (m_output_root_bytes p) (p_compress_in_place p) c_merge_fuel self seek out out_len
+  = res_map (fun bs => arr_store out 0 bs) (c_hasher_finalize_seek p (hasher_of_flat self) seek out_len).
+Proof. exact src_blake3_hasher_finalize_seek_eq_256. Qed.
+
+Print Assumptions C06_src_flat_repr_def.
+Print Assumptions C06_src_chunk_state_update_loop1.
+Print Assumptions C06_src_chunk_state_update_loop1_len.
+Print Assumptions C06_src_chunk_state_update.
+Print Assumptions C06_src_chunk_state_update_model_fuel.
+Print Assumptions C06_src_hasher_merge_cv_stack_loop1.
+Print Assumptions C06_src_hasher_merge_cv_stack.
+Print Assumptions C06_src_hasher_merge_cv_stack_shape.
+Print Assumptions C06_src_hasher_push_cv.
+Print Assumptions C06_src_blake3_hasher_finalize_seek_loop1.
+Print Assumptions C06_src_blake3_hasher_finalize_seek.
+Print Assumptions C06_src_blake3_hasher_finalize_seek_256.
